@@ -527,7 +527,10 @@ pub fn run(cx: &mut Ctx) {
                     continue; // endianness does not enter relocation; one pattern in BE is enough
                 }
                 let start = pattern(cells, which, be);
-                for op in struct_ops(cells * 4, cfg!(miri)) {
+                for (oi, op) in struct_ops(cells * 4, cfg!(miri)).into_iter().enumerate() {
+                    if cfg!(miri) && oi % 3 != 0 {
+                        continue; // Miri is a UB smoke lane: a third of the (already reduced) grid
+                    }
                     cx.case("single_op", |c| {
                         c.nontrivial(fnv(format!("{}|{}|{}|{:?}", cells, which, be, op).as_bytes()));
                         run_seq(c, &start, &[op.clone()]);
@@ -551,6 +554,9 @@ pub fn run(cx: &mut Ctx) {
             let start = pattern(cells, which, false);
             let first = struct_ops(cells * 4, true);
             for (i, op1) in first.iter().enumerate() {
+                if cfg!(miri) && i % 9 != 0 {
+                    continue;
+                }
                 // the second op is drawn over the size reached after op1 (at most size+8)
                 cx.case("op_pairs", |c| {
                     let mut m = start.clone();
@@ -567,7 +573,10 @@ pub fn run(cx: &mut Ctx) {
                     let _ = &mut m;
                     let second = struct_ops(probe.size(), true);
                     let mut k = 0u64;
-                    for op2 in &second {
+                    for (j, op2) in second.iter().enumerate() {
+                        if cfg!(miri) && j % 7 != 0 {
+                            continue;
+                        }
                         run_seq(c, &start, &[op1.clone(), op2.clone()]);
                         c.nontrivial(fnv(format!("pair|{}|{}|{}|{:?}", cells, which, i, op2).as_bytes()));
                         k += 1;
